@@ -169,31 +169,41 @@ def theorems_of(prop: str):
     return thms, examples
 
 
-def lake_build(prop: str) -> tuple[bool, list[Broken], str]:
-    targets = [f"S2T.Props.{prop}", "s2t_driver"]
-    rc, out, err = sh(["lake", "build", *targets], cwd=LEAN, timeout=7200)
+def _parse_build_errors(text: str) -> list[Broken]:
+    broken = []
+    seen = set()
+    for m in re.finditer(r"^error: (S2T/[\w/]+\.lean|Driver\.lean):(\d+):(\d+): (.*)$", text, re.M):
+        f, ln, _, msg = m.group(1), int(m.group(2)), m.group(3), m.group(4)
+        name = f
+        try:
+            ds = [d for d in decls_of(os.path.join(LEAN, f)) if d[0] <= ln]
+            if ds:
+                name = f"{f}:{ds[-1][2]}"
+        except OSError:
+            pass
+        if name in seen:
+            continue
+        seen.add(name)
+        tail = text[m.end(): m.end() + 1500]
+        broken.append(Broken("theorem" if "/Props/" in f else "build", name, msg + tail))
+    return broken
+
+
+def lake_build(prop: str) -> tuple[bool, list[Broken], str, bool]:
+    """builds the model driver and the property's theorems separately: a theorem that no longer
+    checks must not take the executable model (needed by the correspondence and the search) down"""
+    rc_d, out_d, err_d = sh(["lake", "build", "s2t_driver"], cwd=LEAN, timeout=7200)
+    rc, out, err = sh(["lake", "build", f"S2T.Props.{prop}"], cwd=LEAN, timeout=7200)
     text = out + err
     broken = []
     if rc != 0:
-        seen = set()
-        for m in re.finditer(r"^error: (S2T/[\w/]+\.lean|Driver\.lean):(\d+):(\d+): (.*)$", text, re.M):
-            f, ln, _, msg = m.group(1), int(m.group(2)), m.group(3), m.group(4)
-            name = f
-            try:
-                ds = [d for d in decls_of(os.path.join(LEAN, f)) if d[0] <= ln]
-                if ds:
-                    name = f"{f}:{ds[-1][2]}"
-            except OSError:
-                pass
-            if name in seen:
-                continue
-            seen.add(name)
-            # capture some of the message that follows
-            tail = text[m.end(): m.end() + 1500]
-            broken.append(Broken("theorem" if "/Props/" in f else "build", name, msg + tail))
+        broken = _parse_build_errors(text)
         if not broken:
             broken.append(Broken("build", "lake build", text[-3000:]))
-    return rc == 0, broken, text
+    if rc_d != 0:
+        bd = [b for b in _parse_build_errors(out_d + err_d) if b.name not in {x.name for x in broken}]
+        broken += bd or ([Broken("build", "s2t_driver", (out_d + err_d)[-2000:])] if rc == 0 else [])
+    return rc == 0, broken, text, rc_d == 0
 
 
 def audit(prop: str, thms: list[str]) -> tuple[dict, list[Broken]]:
@@ -332,7 +342,7 @@ def main(argv=None) -> int:
             rep, b = translate(list(getattr(mod, "GEN", [])))
             broken += b
             sh(["python3", os.path.join(VERIF, "tools", "gen_driver.py")])
-            ok, b, text = lake_build(prop)
+            ok, b, text, drv_ok = lake_build(prop)
             broken += b
             thms, examples = theorems_of(prop)
             if ok:
@@ -340,7 +350,7 @@ def main(argv=None) -> int:
                 broken += b
                 if ctx.thorough:
                     broken += leanchecker(prop)
-            driver_ok = os.path.exists(DRIVER) and ok
+            driver_ok = os.path.exists(DRIVER) and drv_ok
         else:
             thms, examples = theorems_of(prop)
             driver_ok = os.path.exists(DRIVER)
